@@ -63,6 +63,13 @@ def msmSpecific (smul : S → G → G) (scalars : List S) (bases : List G) : G :
 def msmEval (smul : S → G → G) (scalars : List S) (bases : List G) : Option G :=
   if scalars = [1] then bases[0]? else some (msmSpecific smul scalars bases)
 
+/-- `msm.rs: DualMSM::check`, first statement: `if self.left.scalars.len() == 1 &&
+self.left.scalars[0] == ONE { self.left.bases[0] } else { self.left.eval() }`. -/
+def dualLeft (smul : S → G → G) (scalars : List S) (bases : List G) : Option G :=
+  match scalars with
+  | [s] => if s = 1 then bases[0]? else msmEval smul scalars bases
+  | _ => msmEval smul scalars bases
+
 /-- `msm.rs: DualMSM::check`: `left` (with its own copy of the one-term short-cut) and `right` are
 evaluated, paired with the prepared `[s]₂` and `−[1]₂`, and the product must be the identity of the
 target group. -/
@@ -70,9 +77,7 @@ def dualMsmCheck {Q T M : Type} (smul : S → G → G)
     (mml : List (G × Q) → M) (finalExp : M → T) (isIdentity : T → Bool)
     (leftScalars : List S) (leftBases : List G) (rightScalars : List S) (rightBases : List G)
     (sG2 nG2 : Q) : Option Bool := do
-  let left ← (match leftScalars with
-    | [s] => if s = 1 then leftBases[0]? else msmEval smul leftScalars leftBases
-    | _ => msmEval smul leftScalars leftBases)
+  let left ← dualLeft smul leftScalars leftBases
   let right ← msmEval smul rightScalars rightBases
   pure (isIdentity (finalExp (mml [(left, sG2), (right, nG2)])))
 end
